@@ -92,7 +92,11 @@ func init() {
 		Rule:        "state = (kind, mode, content) of the OUTPUT path; initial states: absent, empty file, short junk, long junk (longer than any report), read-only file, directory, missing parent directory; transitions = one run of the built acv: `validate P D OUT` and `validate P D` for 8 (P,D) inputs (conforming/short report, one violation, many violations/long report, two profile errors, two data errors, empty graph), missing input files, `generate P`, `normalize D`, `compile P`, wrong argument counts, unknown command. Breadth-first to a fixpoint of the canonical state set (content hashed with the dateCreated value masked). Oracle per transition: the library called in-process on the same texts (report modulo the dateCreated value, which must be RFC3339 within the invocation's wall-clock window; generated code after a counter reset; normalised input); failures: non-zero exit and empty stdout.",
 		Assumptions: []string{"the sandbox runs as root, so a read-only output file is writable (that state is explored but behaves like a plain file)"},
 	}, func(tier string, emit func(c18Case)) {
-		emit(c18Case{Init: []string{"absent", "empty", "short", "long", "readonly", "dir", "noparent"}})
+		init := []string{"absent", "empty", "short", "long", "readonly", "dir", "noparent"}
+		if tier == "thorough" {
+			init = append(init, "huge", "exact-size-junk", "newline-only", "binary")
+		}
+		emit(c18Case{Init: init})
 	}, c18Run)
 }
 
@@ -193,13 +197,17 @@ func c18Run(c *Ctx, cs c18Case) {
 		}
 	}
 	initial := map[string]c18State{
-		"absent":   {Kind: "absent"},
-		"empty":    {Kind: "file", Mode: 0o644},
-		"short":    {Kind: "file", Mode: 0o644, Content: []byte("short junk\n")},
-		"long":     {Kind: "file", Mode: 0o644, Content: []byte(strings.Repeat("0123456789abcdef", longest/16+64))},
-		"readonly": {Kind: "file", Mode: 0o444, Content: []byte(strings.Repeat("read-only junk ", 4000))},
-		"dir":      {Kind: "dir"},
-		"noparent": {Kind: "noparent"},
+		"absent":          {Kind: "absent"},
+		"empty":           {Kind: "file", Mode: 0o644},
+		"short":           {Kind: "file", Mode: 0o644, Content: []byte("short junk\n")},
+		"long":            {Kind: "file", Mode: 0o644, Content: []byte(strings.Repeat("0123456789abcdef", longest/16+64))},
+		"readonly":        {Kind: "file", Mode: 0o444, Content: []byte(strings.Repeat("read-only junk ", 4000))},
+		"dir":             {Kind: "dir"},
+		"huge":            {Kind: "file", Mode: 0o644, Content: []byte(strings.Repeat("x", 3<<20))},
+		"exact-size-junk": {Kind: "file", Mode: 0o644, Content: []byte(strings.Repeat("j", len(refs[2].report)))},
+		"newline-only":    {Kind: "file", Mode: 0o600, Content: []byte("\n")},
+		"binary":          {Kind: "file", Mode: 0o644, Content: []byte{0, 1, 2, 0xff, 0xfe, '{', '}', 0}},
+		"noparent":        {Kind: "noparent"},
 	}
 	seen := map[string]bool{}
 	var frontier []c18State
